@@ -68,7 +68,10 @@ def conv_hparams(draw, cin=None):
 
 @st.composite
 def leaves(draw):
-    kind = draw(st.sampled_from(["linear", "linear", "conv", "ln", "mylinear", "relu", "gelu", "tanh", "flatten", "identity", "embedding", "bn", "bare", "dropout", "tied"]))
+    kind = draw(st.sampled_from(["linear", "linear", "conv", "ln", "mylinear", "relu", "gelu", "tanh", "flatten", "identity", "embedding", "bn", "bare", "dropout", "tied", "shared"]))
+    if kind == "shared":
+        # ONE module registered under two names (a layer applied twice), directly or through a shared container
+        return {"t": "shared", "i": draw(st.integers(1, 6)), "bias": draw(st.booleans()), "via": draw(st.sampled_from(["leaf", "container", "leaf-apart"]))}
     if kind == "tied":
         # two distinct modules sharing one Parameter (tied embeddings / tied projections)
         return {"t": "tied", "i": draw(st.integers(1, 6)), "o": draw(st.integers(1, 6)), "bias": draw(st.booleans()), "with": draw(st.sampled_from(["embedding", "linear", "embedding-after"]))}
@@ -122,6 +125,17 @@ def build_tree(node, g):
         m = torch.nn.BatchNorm2d(node["n"])
     elif t == "bare":
         return BareLeaf(node["n"])
+    elif t == "shared":
+        lin = torch.nn.Linear(node["i"], node["i"], bias=node["bias"])
+        with torch.no_grad():
+            for p in lin.parameters():
+                p.copy_(torch.randn(p.shape, generator=g) * 0.5)
+        if node["via"] == "leaf":
+            return Holder([lin, lin])
+        if node["via"] == "leaf-apart":
+            return Holder([lin, torch.nn.Sequential(torch.nn.ReLU(), lin)])
+        box = torch.nn.Sequential(lin, torch.nn.Tanh())
+        return Holder([box, box])
     elif t == "tied":
         lin = torch.nn.Linear(node["i"], node["o"], bias=node["bias"])
         other = torch.nn.Linear(node["i"], node["o"], bias=False) if node["with"] == "linear" else torch.nn.Embedding(node["o"], node["i"])
